@@ -50,6 +50,13 @@ func c08Val(typ string, src int) (goVal any, yaml string, printed string) {
 	case "list":
 		s := "l" + c08Src[src]
 		return []any{s}, "[" + s + "]", s
+	case "nilfill":
+		// Fill mentions the key with a nil value: the key is defined (as nothing), not absent
+		if src == 1 {
+			return nil, "", ""
+		}
+		s := "v" + c08Src[src]
+		return s, s, s
 	}
 	panic(typ)
 }
@@ -61,6 +68,9 @@ func (c *c08Case) runPresence(ctx *core.Ctx) {
 	}
 	if c.Var == "K" && c.Fill == "map" {
 		return
+	}
+	if c.Type == "nilfill" && (c.Fill != "map" || !has(1)) {
+		return // a nil struct field is the unconstrained zone below; without Fill the type adds nothing
 	}
 	files := Files{"other.vuego": "x"}
 	yml := func(i int) string { _, y, _ := c08Val(c.Type, i); return c.Var + ": " + y + "\n" }
@@ -87,6 +97,9 @@ func (c *c08Case) runPresence(ctx *core.Ctx) {
 			lit := "'" + p + "'"
 			if c.Type == "int" {
 				lit = p
+			}
+			if c.Type == "nilfill" && i == 1 {
+				continue
 			}
 			body += `<i class="r" v-if="` + ref + ` == ` + lit + `">` + p + `</i>`
 		}
@@ -542,7 +555,7 @@ func init() {
 					for _, la := range []string{"first", "last"} {
 						for _, fill := range []string{"map", "struct", "ptr"} {
 							for _, v := range []string{"k", "K"} {
-								for _, typ := range []string{"string", "int", "list"} {
+								for _, typ := range []string{"string", "int", "list", "nilfill"} {
 									for _, rd := range []string{"must", "vif", "bind", "expr", "get"} {
 										for _, en := range []string{"render", "renderfile", "renderstring"} {
 											emit(&c08Case{Part: "presence", Mask: mask, Order: order, LoadAt: la, Fill: fill, Var: v, Type: typ, Read: rd, Entry: en})
